@@ -45,8 +45,8 @@ ASSUMPTIONS = [
 ]
 OUTSIDE = ['graphs beyond the bound']
 
-ROLES = {'amr': [':mod', ':mod-of', ':ARG0', ':location~1', ':ARG1-of'],
-         'custom': [':r', ':r-of', ':q1', ':q1-of~2', ':t'],
+ROLES = {'amr': [':mod', ':mod-of~e.4', ':ARG0', ':location~1', ':ARG1-of'],
+         'custom': [':r', ':r-of~x3', ':q1', ':q1-of~2', ':t'],
          'default': [':mod', ':mod-of', ':ARG0']}
 ATOMS = ['a', '_', '7', 'x~2']
 CONCEPTS = ['y', 'z~3', NO_CONCEPT]
@@ -139,7 +139,7 @@ h_tree.params_for = lambda fixed: {
     k: v for k, v in progs.tree_params(fixed['n']).items() if k not in fixed}
 
 SHAPES = ['(a / x {r} 7)', '(a / x {r} (b / y))', '(a / x {r}-of (b / y))',
-          '(a / x {r}~1 b~2 :ARG0 (b / y))']
+          '(a / x {r}~e.1 b~2 :ARG0 (b / y))']
 
 
 def h_amr_roles(ri: int, si: int):
